@@ -197,10 +197,12 @@ type fakeClientStream struct {
 	n         int
 }
 
-func (s *fakeClientStream) Header() (metadata.MD, error) { return s.conn.script.header, s.conn.script.hdrErr }
-func (s *fakeClientStream) Trailer() metadata.MD         { return s.conn.script.trailer }
-func (s *fakeClientStream) CloseSend() error             { s.closeSent = true; return nil }
-func (s *fakeClientStream) Context() context.Context     { return s.ctx }
+func (s *fakeClientStream) Header() (metadata.MD, error) {
+	return s.conn.script.header, s.conn.script.hdrErr
+}
+func (s *fakeClientStream) Trailer() metadata.MD     { return s.conn.script.trailer }
+func (s *fakeClientStream) CloseSend() error         { s.closeSent = true; return nil }
+func (s *fakeClientStream) Context() context.Context { return s.ctx }
 func (s *fakeClientStream) SendMsg(m any) error {
 	s.req = proto.Clone(m.(proto.Message))
 	for i := range *s.conn.calls {
@@ -247,7 +249,7 @@ func (s *fakeServerStream) SendHeader(md metadata.MD) error {
 	return nil
 }
 func (s *fakeServerStream) SetTrailer(md metadata.MD) { s.trailer = metadata.Join(s.trailer, md) }
-func (s *fakeServerStream) Context() context.Context   { return s.ctx }
+func (s *fakeServerStream) Context() context.Context  { return s.ctx }
 func (s *fakeServerStream) SendMsg(m any) error {
 	if s.failAt > 0 && len(s.sent)+1 == s.failAt {
 		return s.sendErr
@@ -556,7 +558,7 @@ func routeRegistryRun(w *World) {
 	nextID := 0
 	type change struct {
 		name, old, new string
-		auto          bool
+		auto           bool
 	}
 	var changes []change
 	idOf := func(c any) string {
